@@ -179,6 +179,10 @@ def case_worker(case):
         for w_ in wl:
             argv += ["--whitelist", w_]
         res["argv"] = argv[1:]
+        if opts.get("prior_real_run") and opts["dry_run"]:
+            # history: a real run into the same output directory first, then the dry run that is observed
+            run_observed(work, [a for a in argv if a != "--dry-run"], extra_path=[src], cwd=cwd, timeout=240)
+            res["history"] = ["real run: " + " ".join(a for a in argv[1:] if a != "--dry-run"), "dry run (observed)"]
         before = snapshot(tree)
         r = run_observed(work, argv, extra_path=[src], cwd=cwd, timeout=240)
         after = snapshot(tree)
@@ -225,7 +229,7 @@ def case_worker(case):
                 if wl and opts["whitelist"] == "other" and created_out:
                     res["problems"].append({"clause": "module not in the whitelist produced output",
                                             "paths": created_out[:6]})
-                if opts["blacklist"] == "root" and bl and not wl:
+                if opts["blacklist"] == "root" and bl:  # the blacklist wins over a whitelist naming the same module
                     # the root folder is gated: none of the root package's own modules may appear
                     roots = [m for m in modules if m[1] == "module" and m[0].count(".") == module.count(".") + 1]
                     hit = [k for k in created_out for m in roots
@@ -262,6 +266,7 @@ def gen_cases(ctx):
             "whitelist": rng.choice([None, None, None, None, "root", "other"]),
             "top": rng.choice(["pkga", "zoo", "mylib"]),
             "outer": rng.choice([None, "outerp"]),
+            "prior_real_run": rng.random() < 0.3,
         }
         cases.append((rng.randrange(1 << 30), opts))
     # fixed corner cases always present: dry-run x every sqlalchemy kind x submodule, out missing / present
@@ -270,6 +275,14 @@ def gen_cases(ctx):
             cases.append((7 + len(cases), {"emit": [e], "recursive": True, "dry_run": True, "out_exists": ex,
                                            "sqla_sub": True, "blacklist": None, "whitelist": None, "top": "pkga",
                                            "outer": None}))
+    for e in ("sqlalchemy_table", "sqlalchemy_hybrid", "class"):
+        cases.append((9 + len(cases), {"emit": [e], "recursive": True, "dry_run": True, "out_exists": True, "sqla_sub": True, "blacklist": None,
+                                       "whitelist": None, "top": "pkga", "outer": None, "prior_real_run": True}))
+    # the gate with both lists: a module named by the blacklist AND the whitelist is excluded
+    for top, outer in (("pkga", "outerp"), ("mylib", "outerp")):
+        for rec in (False, True):
+            cases.append((11 + len(cases), {"emit": ["class"], "recursive": rec, "dry_run": False, "out_exists": False, "sqla_sub": False,
+                                            "blacklist": "root", "whitelist": "root", "top": top, "outer": outer}))
     return cases
 
 
